@@ -1,6 +1,6 @@
 //! C08: cleanup never removes anything a retained version needs.
 //! Model: coq/theories/Table/Model_Cleanup.v.  Arms: unit (decision tree through its observable effect,
-//! whole policy table), e2e histories, auto cleanup, race with an append, finding F7.
+//! whole policy table), path helpers, e2e histories, auto cleanup, race with an append, finding F7.
 mod e2e;
 mod unit;
 mod world;
@@ -20,6 +20,9 @@ fn main() {
     let want = |name: &str| only.as_deref().map(|o| o == name).unwrap_or(true);
     if want("unit") {
         unit::run(&args, &mut sink, &mut rng.fork(), &rt);
+    }
+    if want("paths") {
+        unit::paths(&mut sink);
     }
     if want("e2e") {
         e2e::histories(&args, &mut sink, &mut rng.fork(), &rt);
